@@ -9,7 +9,9 @@
    the operands were partitioned, broadcast, shuffle method and npartitions are
    logged for the reader only: the verdict must not depend on them.
 
-     op = "merge"    how, mode, naming, ind, L, R, lknown, rknown, obs
+     op = "merge"    how, mode, naming, ind, L, R, lknown, rknown, lpre, rpre, obs
+                     (lpre / rpre: what an operand went through before the join, see Joins!PreOK - the harness'
+                      obligation; the verdict does not depend on it)
      op = "concat"   frames ([cols, rows]), join, fdivs, interleave, obs
      op = "concat1"  L, R, join, obs
      op = "asof"     mode, direction, exact, tol, by, L, R, obs                *)
